@@ -41,6 +41,7 @@ func (c Config) String() string {
 
 // World is the resolved program of one configuration.
 type World struct {
+	inputParam map[*ssa.Parameter]bool // rules_num.go: parameters holding (parts of) the value being encoded
 	Cfg    Config
 	Repo   string
 	Fset   *token.FileSet
